@@ -134,7 +134,7 @@ def run(ctx):
 
     # ---- R08.5 no background work -----------------------------------------------------------------------
     n_calls = 0
-    at = prog.body('deadpool::managed::apply_timeout::{closure#0}')
+    at = r.TIMEOUT_WRAPPER
     for b in managed_bodies(prog):
         for blk in b.blocks:
             if blk.term.kind != 'call' or blk.cleanup:
